@@ -1863,6 +1863,43 @@ ctl('g9-write-deadline-set-once', 'C08', 'G9', 'websocket/realtime.go',
 	conn.SetWriteDeadline(time.Now().Add(h.ClientIdleTimeout))
 }""", 'deadline-armed-per-operation', 'seed C08-25')
 
+ctl('q10-merge-before-the-grid-is-fitted', 'C20', 'Q10', 'modules/dagaz/grid_spatial_partition.go',
+    """	// fit the min & max:
+	grid.ExpandToFitPoint(&minPoint)
+	grid.ExpandToFitPoint(&maxPoint)
+""",
+    """""", 'fitted-before-written', 'seed C20-24',
+    edits=[dict(file='modules/dagaz/grid_spatial_partition.go',
+                old="""	if quadToMerge == &q {
+		// case of append:
+""",
+                new="""	if quadToMerge == &q {
+		// case of append:
+		grid.ExpandToFitPoint(&minPoint)
+		grid.ExpandToFitPoint(&maxPoint)
+""")])
+ctl('i2-measurement-object-carried-over', 'C18', 'I2', 'websocket/realtime.go',
+    """	participant := &models.Participant{
+		ID:            session.NewParticipantID(),
+		Responder:     respond,
+		SignedLatency: &models.SignedLatency{},
+	}""",
+    """	signedLatency := &models.SignedLatency{}
+	if h.currentParticipant != nil {
+		signedLatency = h.currentParticipant.SignedLatency
+	}
+	participant := &models.Participant{
+		ID:            session.NewParticipantID(),
+		Responder:     respond,
+		SignedLatency: signedLatency,
+	}""", 'measurement-object-created-with-the-participant', 'seed C18-23')
+ctl('e6-frame-cancel-handed-to-a-context-callback', 'C11', 'E6', 'websocket/realtime.go',
+    """	h.stopFrameHandling = session.HandleFrame(handleFrame)
+""",
+    """	h.stopFrameHandling = session.HandleFrame(handleFrame)
+	context.AfterFunc(ctx, h.stopFrameHandling)
+""", 'frame-cancel-not-handed-on', 'seed C11-25')
+
 os.makedirs(OUT, exist_ok=True)
 bad = 0
 names = set()
